@@ -46,6 +46,69 @@ pub enum Op {
     MoveToHeap(u8),
     /// insert k quads made of fresh terms (crosses hash-map resize thresholds)
     Grow(u8, u16),
+    /// insert one quad whose terms are *inconstant*: each position holds a list of values of one
+    /// kind, and the term shows the next value of its list every time its main accessor is called
+    /// (`Term` is a safe trait and nothing obliges an implementation to be idempotent). The content
+    /// of the store afterwards is whatever it is (the model is re-read from the store), but the
+    /// store must stay self-contained and internally consistent, and its siblings untouched.
+    InsertFickle(u8, FQ),
+}
+
+/// per position: the successive values shown by the inconstant term (non-empty, all of one kind)
+#[derive(Clone, Debug, Serialize, Deserialize)]
+pub struct FQ {
+    pub s: Vec<MT>,
+    pub p: Vec<MT>,
+    pub o: Vec<MT>,
+    pub g: Option<Vec<MT>>,
+}
+
+/// A term whose accessors are not idempotent.
+#[derive(Debug)]
+pub struct Fickle {
+    vals: Vec<sophia_api::term::SimpleTerm<'static>>,
+    n: std::cell::Cell<usize>,
+}
+impl Fickle {
+    pub fn new(vals: &[MT]) -> Self {
+        Fickle { vals: vals.iter().map(|t| t.to_simple()).collect(), n: std::cell::Cell::new(0) }
+    }
+    fn next(&self) -> &sophia_api::term::SimpleTerm<'static> {
+        let k = self.n.get();
+        self.n.set(k + 1);
+        &self.vals[k % self.vals.len()]
+    }
+    fn cur(&self) -> &sophia_api::term::SimpleTerm<'static> {
+        let k = self.n.get().max(1) - 1;
+        &self.vals[k % self.vals.len()]
+    }
+}
+impl sophia_api::term::Term for Fickle {
+    type BorrowTerm<'x> = &'x Fickle;
+    fn kind(&self) -> sophia_api::term::TermKind {
+        self.vals[0].kind()
+    }
+    fn iri(&self) -> Option<sophia_api::term::IriRef<sophia_api::MownStr<'_>>> {
+        self.next().iri()
+    }
+    fn bnode_id(&self) -> Option<sophia_api::term::BnodeId<sophia_api::MownStr<'_>>> {
+        self.next().bnode_id()
+    }
+    fn lexical_form(&self) -> Option<sophia_api::MownStr<'_>> {
+        self.next().lexical_form()
+    }
+    fn datatype(&self) -> Option<sophia_api::term::IriRef<sophia_api::MownStr<'_>>> {
+        self.cur().datatype()
+    }
+    fn language_tag(&self) -> Option<sophia_api::term::LanguageTag<sophia_api::MownStr<'_>>> {
+        self.cur().language_tag()
+    }
+    fn variable(&self) -> Option<sophia_api::term::VarName<sophia_api::MownStr<'_>>> {
+        self.next().variable()
+    }
+    fn borrow_term(&self) -> &Fickle {
+        self
+    }
 }
 impl Op {
     fn kind(&self) -> &'static str {
@@ -60,6 +123,7 @@ impl Op {
             Op::Swap(..) => "swap",
             Op::MoveToHeap(_) => "move",
             Op::Grow(..) => "grow",
+            Op::InsertFickle(..) => "insert_fickle",
         }
     }
 }
@@ -103,6 +167,10 @@ trait St: Clone + Sized {
     /// compare with the model; copies every byte of every string held
     fn check(&self, m: &Model, pat: Option<&QPat>) -> Result<(), String>;
     fn audit(&self) -> Vec<usize>;
+    /// insert a quad of inconstant terms; the outcome (flag, error) is not judged
+    fn insert_fickle(&mut self, fq: &FQ);
+    /// after `insert_fickle` (and a clean audit): internal consistency, then model := store
+    fn resync(&self, m: &mut Model) -> Result<(), String>;
 }
 
 fn proj(q: &MQ) -> MQ {
@@ -179,6 +247,33 @@ macro_rules! st_dataset {
             fn audit(&self) -> Vec<usize> {
                 self.0.verif_term_index().verif_audit()
             }
+            fn insert_fickle(&mut self, fq: &FQ) {
+                use sophia_api::dataset::MutableDataset;
+                let (s, p, o) = (Fickle::new(&fq.s), Fickle::new(&fq.p), Fickle::new(&fq.o));
+                let g = fq.g.as_ref().map(|g| Fickle::new(g));
+                let _ = self.0.insert(&s, &p, &o, g.as_ref());
+            }
+            fn resync(&self, m: &mut Model) -> Result<(), String> {
+                let all = d_all(&self.0);
+                for q in &all {
+                    if !d_contains(&self.0, q) {
+                        return Err(format!("quads() yields {} but contains() denies it", q.show()));
+                    }
+                    let pat = QPat::exact(q);
+                    let got = d_matching(&self.0, &pat);
+                    if got.len() != 1 || &got[0] != q {
+                        return Err(format!("quads_matching(exactly {}) yields {} quads", q.show(), got.len()));
+                    }
+                }
+                let mut d = all.clone();
+                d.sort();
+                d.dedup();
+                if d.len() != all.len() {
+                    return Err("quads() yields a quad twice".into());
+                }
+                m.quads = all;
+                Ok(())
+            }
         }
     };
 }
@@ -228,6 +323,32 @@ macro_rules! st_graph {
             }
             fn audit(&self) -> Vec<usize> {
                 self.0.verif_term_index().verif_audit()
+            }
+            fn insert_fickle(&mut self, fq: &FQ) {
+                use sophia_api::graph::MutableGraph;
+                let (s, p, o) = (Fickle::new(&fq.s), Fickle::new(&fq.p), Fickle::new(&fq.o));
+                let _ = self.0.insert(&s, &p, &o);
+            }
+            fn resync(&self, m: &mut Model) -> Result<(), String> {
+                let all = g_all(&self.0);
+                for q in &all {
+                    if !g_contains(&self.0, q) {
+                        return Err(format!("triples() yields {} but contains() denies it", q.show()));
+                    }
+                    let pat = QPat::exact(q);
+                    let got = g_matching(&self.0, &pat);
+                    if got.len() != 1 || &got[0] != q {
+                        return Err(format!("triples_matching(exactly {}) yields {} triples", q.show(), got.len()));
+                    }
+                }
+                let mut d = all.clone();
+                d.sort();
+                d.dedup();
+                if d.len() != all.len() {
+                    return Err("triples() yields a triple twice".into());
+                }
+                m.quads = all;
+                Ok(())
             }
         }
     };
@@ -315,6 +436,34 @@ impl<I: Index + PartialEq> St for SIndex<I> {
     fn audit(&self) -> Vec<usize> {
         self.0.verif_audit()
     }
+    fn insert_fickle(&mut self, fq: &FQ) {
+        for vals in [Some(&fq.s), Some(&fq.p), Some(&fq.o), fq.g.as_ref()].into_iter().flatten() {
+            let before = self.0.len();
+            let t = Fickle::new(vals);
+            if let Ok(i) = self.0.ensure_index(&t) {
+                // an issued index must exist
+                assert!(i.into_usize() < self.0.len(), "ensure_index returned {i:?} but len() = {}", self.0.len());
+            }
+            assert!(self.0.len() <= before + 1, "one ensure_index call added {} entries", self.0.len() - before);
+        }
+    }
+    fn resync(&self, m: &mut Model) -> Result<(), String> {
+        let cap = I::MAX.into_usize();
+        if self.0.len() > cap {
+            return Err(format!("len() = {} exceeds the capacity {cap}", self.0.len()));
+        }
+        let mut terms = vec![];
+        for i in 0..self.0.len() {
+            let t = self.0.get_term(I::from_usize(i));
+            let back = self.0.get_index(t).map(Index::into_usize);
+            if back != Some(i) {
+                return Err(format!("get_index(get_term({i})) = {back:?}"));
+            }
+            terms.push(MT::from_term(t));
+        }
+        m.terms = terms;
+        Ok(())
+    }
 }
 
 // ------------------------------------------------------------------ interpreter
@@ -360,6 +509,7 @@ fn run_history<S: St>(ops: &[Op], audit: bool) -> Outcome {
         let mut acted: Option<usize> = None;
         let mut pat: Option<(usize, &QPat)> = None;
         let mut op_err: Option<String> = None;
+        let mut resync: Option<usize> = None;
         let slot = |i: &u8| *i as usize % SLOTS;
         match op {
             Op::New(i) => {
@@ -425,6 +575,21 @@ fn run_history<S: St>(ops: &[Op], audit: bool) -> Outcome {
                 if slots[i].is_some() {
                     pat = Some((i, p));
                 }
+            }
+            Op::InsertFickle(i, fq) => {
+                let i = slot(i);
+                if slots[i].is_none() {
+                    slots[i] = Some(S::new());
+                    models[i] = Model::default();
+                    forget(&mut sib, i);
+                }
+                if sib[i] != 0 {
+                    out.nontrivial = true;
+                    out.classes.push("mutate-with-live-sibling".into());
+                }
+                slots[i].as_mut().unwrap().insert_fickle(fq);
+                resync = Some(i);
+                acted = Some(i);
             }
             Op::Clone(a, b) => {
                 let (a, b) = (slot(a), slot(b));
@@ -550,6 +715,17 @@ fn run_history<S: St>(ops: &[Op], audit: bool) -> Outcome {
                 }
             }
         }
+        // after an insertion of inconstant terms the acted store is only required to be internally
+        // consistent (its model is re-read from it); its siblings are still held to their models
+        if let Some(i) = resync {
+            if let Err(e) = slots[i].as_ref().unwrap().resync(&mut models[i]) {
+                out.fail = Some((
+                    "consistency/after-insert_fickle".to_string(),
+                    format!("step {step} ({kind}): slot {i} is not internally consistent: {e}"),
+                ));
+                return out;
+            }
+        }
         // oracle 1: every live store equals its model
         for (i, s) in slots.iter().enumerate() {
             if let Some(s) = s {
@@ -655,8 +831,29 @@ fn op_strategy() -> BoxedStrategy<Op> {
         2 => (sl.clone(), sl.clone()).prop_map(|(a, b)| Op::Swap(a, b)),
         2 => sl.clone().prop_map(Op::MoveToHeap),
         2 => (sl.clone(), prop_oneof![3 => 1u16..20, 1 => 20u16..160]).prop_map(|(i, k)| Op::Grow(i, k)),
+        2 => (sl.clone(), fq_strategy()).prop_map(|(i, fq)| Op::InsertFickle(i, fq)),
     ]
     .boxed()
+}
+fn fickle_pos(pos: u8) -> BoxedStrategy<Vec<MT>> {
+    // values of one kind; long strings, so that every value is a heap allocation of its own
+    let iris: Vec<MT> = (0..4).map(|k| MT::iri(format!("http://f.example/inconstant/iri/number/{k}/{}", "x".repeat(24)))).collect();
+    let bns: Vec<MT> = (0..3).map(|k| MT::bn(format!("inconstantblanknodewithalonglabel{k}"))).collect();
+    let lits: Vec<MT> = (0..3).map(|k| MT::string(format!("an inconstant literal, value number {k} {}", "y".repeat(16)))).collect();
+    let langs: Vec<MT> = (0..3).map(|k| MT::lang(format!("an inconstant tagged literal, number {k} {}", "z".repeat(16)), "en")).collect();
+    let pools: Vec<Vec<MT>> = match pos {
+        1 => vec![iris],
+        0 | 3 => vec![iris, bns],
+        _ => vec![iris, bns, lits, langs],
+    };
+    (pick(pools), prop::collection::vec(0usize..4, 1..4))
+        .prop_map(|(pool, ix)| ix.into_iter().map(|i| pool[i % pool.len()].clone()).collect())
+        .boxed()
+}
+fn fq_strategy() -> BoxedStrategy<FQ> {
+    (fickle_pos(0), fickle_pos(1), fickle_pos(2), prop::option::of(fickle_pos(3)))
+        .prop_map(|(s, p, o, g)| FQ { s, p, o, g })
+        .boxed()
 }
 fn case_strategy() -> BoxedStrategy<Case> {
     (0..KINDS.len() as u8, prop::collection::vec(op_strategy(), 1..36))
